@@ -207,6 +207,7 @@ func runCheck(o *Options, writeEvidence bool) int {
 		pool.xEvery = 1
 	}
 	pool.natSample = o.natSample
+	pool.kfs = loadKnown(o.verifDir)
 	pool.cond = sync.NewCond(&pool.mu)
 	for _, h := range hs {
 		pool.queue = append(pool.queue, Job{h, nil})
@@ -353,7 +354,7 @@ func runCheck(o *Options, writeEvidence bool) int {
 	tp := 0
 	for _, h := range hs {
 		tp += h.nPaths
-		fmt.Printf("  %-48s paths=%-6d %v asserts=%d fails=%d\n", h.Name, h.nPaths, h.paths, sumVals(h.asserts), len(h.failures))
+		fmt.Printf("  %-48s paths=%-6d %v asserts=%d fails=%d maxsteps=%d\n", h.Name, h.nPaths, h.paths, sumVals(h.asserts), len(h.failures), h.maxPathSteps)
 	}
 	q, qs, qu, qk, qw := 0, 0, 0, 0, time.Duration(0)
 	for _, w := range append(workers, cw) {
